@@ -681,13 +681,15 @@ func (w *Writer) AddMaterial(mat *PolyformMaterial) (*int, error) {
 }
 
 func (w *Writer) AddSkin(skeleton animation.Skeleton) (*int, int) {
-	skeletonNodes := flattenSkeletonToNodes(1, skeleton, w.buf)
-	w.scene = append(w.scene, len(w.nodes))
+	// joint i of the skeleton becomes node offset+i
+	offset := len(w.nodes)
+	skeletonNodes := flattenSkeletonToNodes(offset, skeleton, w.buf)
+	w.scene = append(w.scene, offset)
 	w.nodes = append(w.nodes, skeletonNodes...)
 
 	jointIndices := make([]int, len(skeletonNodes))
 	for i := 0; i < len(skeletonNodes); i++ {
-		jointIndices[i] = i + 1 // +1 because we're offsetting from mesh node
+		jointIndices[i] = offset + i
 	}
 
 	w.accessors = append(w.accessors, Accessor{
